@@ -147,7 +147,7 @@ Record tstate := mkTS {
 }.
 
 Definition advance (st : tstate) (taken : bytes) (rest : bytes) : tstate :=
-  mkTS (rev taken ++ ts_pre st) rest (ts_pos st + len taken) (ts_sep st) (ts_line st) (ts_toks st).
+  mkTS (rev_append taken (ts_pre st)) rest (ts_pos st + len taken) (ts_sep st) (ts_line st) (ts_toks st).
 
 Definition leading_spaces (pre : bytes) : bytes := fst (span (fun c => aeq c " ") pre).
 
@@ -173,7 +173,7 @@ Definition handle_a2ml (fileid : nat) (st : tstate) : TRes tstate :=
         | None => TFuel
         | Some n =>
             let scanned := firstN n (ts_suf st) in
-            let text := rev (a2ml_trim (rev scanned)) in
+            let text := frev (a2ml_trim (frev scanned)) in
             if 0 <? len text then
               let startpos := ts_pos st in
               let st1 := advance st text (skipN (len text) (ts_suf st)) in
@@ -272,7 +272,7 @@ Definition one_token (fileid : nat) (st : tstate) : TRes tstate :=
 
 Fixpoint tok_loop (fuel : nat) (fileid : nat) (st : tstate) : TRes (list token) :=
   match ts_suf st with
-  | [] => TOk (rev (ts_toks st))
+  | [] => TOk (frev (ts_toks st))
   | _ :: _ =>
       match fuel with
       | O => TFuel
